@@ -300,6 +300,8 @@ def root_cause(case, clauses=None):
                 return "outwhere:out-dtype-differs"
     if can(STRUCT_CLAUSES) and (len(live) > 1 or case["fam"] == "clip") and \
             any(x["f"] == "d" and any(s == 1 and 0 in c for s, c in zip(x["sh"], x["ch"])) for x in live):
+        if case["fam"] == "where" and xs[0]["f"] == "s":
+            return "broadcast_to:zero-chunk-on-unit-axis"     # where(scalar, x, y) goes through broadcast_to
         return "elemwise:zero-chunk-on-unit-axis"
     return None
 
